@@ -193,4 +193,67 @@ theorem hasLink_encode_head (c : Codec) (k : String) (v r : Val) (t : H5) (it : 
     subst he
     simp [H5.hasLink, hna]
 
+/-! ### the field accesses of `*_from_dict` (round 6) -/
+
+/-- a reading rule that uses the stored value whenever the key is there — whatever its truth
+    value — and leaves absence to `None` (optional) or `KeyError` (required) -/
+def GoodRule (r : Nat → Nat → Nat) : Prop :=
+  r 1 0 = 1 ∧ r 1 1 = 1 ∧ (r 0 0 = 0 ∨ r 0 0 = 3)
+
+/-- the generated leaves, field by field -/
+theorem fromDict_leaf_table :
+    (∀ i, i < 12 → GoodRule (fromDictResult i)) ∧ (∀ i, i < 5 → GoodRule (fromDictRdms i)) ∧
+    (∀ i, i < 6 → GoodRule (fromDictDataset i)) ∧ GoodRule (fromDictModel 1) ∧
+    GoodRule (fromDictModel 2) ∧
+    -- a model's `rdm` is the one field read by truth value: `None` (and nothing else the writer
+    -- produces is falsy there) means "no RDMs"
+    fromDictModel 0 1 1 = 1 ∧ fromDictModel 0 1 0 = 0 ∧ fromDictModel 0 0 0 = 3 := by
+  unfold GoodRule
+  decide
+
+theorem fieldRule_good (k : Kind) (i : Nat) (hi : i < (fieldNames k).length) :
+    GoodRule (fieldRule k i) := by
+  obtain ⟨hr, hd, hs, hm1, hm2, _⟩ := fromDict_leaf_table
+  cases k with
+  | rdms => exact hd i (by simpa [fieldNames] using hi)
+  | dataset => exact hs i (by simpa [fieldNames] using hi)
+  | result => exact hr i (by simpa [fieldNames] using hi)
+  | model =>
+      have : i = 0 ∨ i = 1 := by
+        simp [fieldNames] at hi
+        omega
+      rcases this with h | h <;> subst h
+      · exact hm1
+      · exact hm2
+
+theorem readField_good (r : Nat → Nat → Nat) (h : GoodRule r) (d : Val) (k : String) :
+    readField r d k = .ok d := by
+  obtain ⟨h0, h1, ha⟩ := h
+  unfold readField
+  cases hg : d.get? k with
+  | some v =>
+      cases hb : pyTruthy v <;> simp [hg, hb, b2n, h0, h1]
+  | none =>
+      rcases ha with ha | ha <;> simp [hg, ha]
+
+theorem readFields_good (rule : Nat → Nat → Nat → Nat) (ks : List String) (i : Nat) (d : Val)
+    (h : ∀ j, j < ks.length → GoodRule (rule (i + j))) : readFields rule ks i d = .ok d := by
+  induction ks generalizing i with
+  | nil => rfl
+  | cons k ks ih =>
+      have h0 : GoodRule (rule i) := by simpa using h 0 (by simp)
+      have hrest : ∀ j, j < ks.length → GoodRule (rule (i + 1 + j)) := by
+        intro j hj
+        have := h (j + 1) (by simp; omega)
+        simpa [Nat.add_assoc, Nat.add_comm 1 j] using this
+      simp [readFields, readField_good _ h0, ih (i + 1) hrest, bind, Except.bind]
+
+/-- `*_from_dict` with the field accesses as coded is the `fromDict` of all other theorems -/
+theorem fromDictC_eq (k : Kind) (d : Val) : fromDictC k d = fromDict k d := by
+  unfold fromDictC
+  rw [readFields_good (fieldRule k) (fieldNames k) 0 d
+    (fun j hj => by simpa using fieldRule_good k j hj)]
+  rfl
+
+
 end Rsa.Store
